@@ -187,12 +187,12 @@ func (c *codecVolatile) DecodeTo(d *binary.Decoder, rv reflect.Value) (err error
 	for i := 0; i < int(size); i++ {
 		k, err := d.ReadSlice()
 		if err != nil {
-			return nil
+			return err
 		}
 
 		v, err := d.ReadSlice()
 		if err != nil {
-			return nil
+			return err
 		}
 
 		if len(v) < 16 {
